@@ -14,7 +14,9 @@ for sid in $ids; do
     (cd $wt && patch -p1 --fuzz=3 -s < $d/patch.diff) || { echo "$sid $prop PATCH-DOES-NOT-APPLY" >> $out; git -C /repo worktree remove --force $wt; continue; }
   fi
   cd /verif
+  cp /verif/evidence/$prop.json /tmp/mx_ev_$prop.json 2>/dev/null   # the registered evidence must never come from a patched tree
   PYTHONPATH=$wt timeout 3000 ./check $prop --tier quick > /tmp/matrix_${sid}_$prop.log 2>&1; rc=$?
+  [ -f /tmp/mx_ev_$prop.json ] && mv /tmp/mx_ev_$prop.json /verif/evidence/$prop.json
   grep -v "^$sid $prop " $out > $out.tmp 2>/dev/null; mv $out.tmp $out
   echo "$sid $prop rc=$rc violations=$(grep -c '^VIOLATION' /tmp/matrix_${sid}_$prop.log) first_clause=$(grep -m1 'clause' /tmp/matrix_${sid}_$prop.log | sed 's/.*clause: //')" >> $out
   git -C /repo worktree remove --force $wt
